@@ -336,6 +336,13 @@ func opsFor(x int) map[string]op {
 			add(mut(fmt.Sprintf("st(%s,%d,%d)", n, si, v), func(s *state.StateDB) { s.SetState(a, sl, vv) }))
 		}
 	}
+	// boundary values of the storage value encoding (single byte below / at 0x80, two bytes, a full word)
+	for _, v := range []int64{127, 128, 256} {
+		sl, vv := slots[1], hv(v)
+		add(mut(fmt.Sprintf("st(%s,1,%d)", n, v), func(s *state.StateDB) { s.SetState(a, sl, vv) }))
+	}
+	full := common.HexToHash("0xff00000000000000000000000000000000000000000000000000000000000080")
+	add(mut("st("+n+",1,full)", func(s *state.StateDB) { s.SetState(a, slots[1], full) }))
 	add(mut("suicide("+n+")", func(s *state.StateDB) { s.Suicide(a) }))
 	return m
 }
@@ -443,6 +450,7 @@ var familyDefs = []family{
 	{"F2a-root", []int{0, 1, 2}, []string{"add1(X)", "setbal0(X)", "nonce1(X)", "nonce0(X)", "codeA(X)", "st(X,0,1)", "st(X,0,0)", "st(X,1,2)", "fin(true)", "fin(false)", "commit(false)"}},
 	{"F2b-persist", []int{0, 2}, []string{"add1(X)", "setbal0(X)", "codeB(X)", "st(X,0,2)", "st(X,0,0)", "fin(true)", "commit(true)", "commit(false)", "copy", "reopen-disk(true)", "reopen-cached(false)", "readall"}},
 	{"F3-destruct", []int{0, 1, 2}, []string{"suicide(X)", "create(X)", "add0(X)", "add1(X)", "sub1(X)", "st(X,0,1)", "snap", "revN", "fin(true)", "fin(false)"}},
+	{"F6-values", []int{0, 2}, []string{"st(X,1,127)", "st(X,1,128)", "st(X,1,256)", "st(X,1,full)", "st(X,1,2)", "st(X,0,0)", "fin(true)", "commit(false)", "copy", "reopen-disk(true)"}},
 	{"F5-copy", []int{0}, []string{"add1(X)", "logrefund", "logB", "snap", "revN", "fork", "copy"}},
 	{"F4-two", []int{0}, []string{"add1(A1)", "add1(F)", "st(A1,1,2)", "st(F,0,2)", "suicide(A1)", "suicide(F)", "snap", "revN", "fin(true)", "reopen-disk(true)"}},
 }
@@ -834,7 +842,7 @@ func TestCheck(t *testing.T) {
 			t0 := time.Now()
 			var famEvals int64
 			fdepth := depth
-			if run.Quick() && strings.HasPrefix(fam.name, "F2") && os.Getenv("VERIF_C09_DEPTH") == "" {
+			if run.Quick() && (strings.HasPrefix(fam.name, "F2") || fam.name == "F6-values") && os.Getenv("VERIF_C09_DEPTH") == "" {
 				fdepth = depth - 1 // quick: the two families without snapshots (no ill-formed sequences to skip) one level shallower
 			}
 			if fam.name == "F5-copy" && os.Getenv("VERIF_C09_DEPTH") == "" {
